@@ -136,3 +136,67 @@ func Spare(ps []orb.Point) []orb.Point {
 	}
 	return buf[:len(ps)]
 }
+
+// Map returns a deep copy of g with f applied to every coordinate pair (bounds: to both corners, as stored).
+// Nil-ness and emptiness of slices are kept.
+func Map(g orb.Geometry, f func(orb.Point) orb.Point) orb.Geometry {
+	mp := func(ps []orb.Point) []orb.Point {
+		if ps == nil {
+			return nil
+		}
+		o := make([]orb.Point, len(ps))
+		for i, p := range ps {
+			o[i] = f(p)
+		}
+		return o
+	}
+	switch v := g.(type) {
+	case orb.Point:
+		return f(v)
+	case orb.Bound:
+		return orb.Bound{Min: f(v.Min), Max: f(v.Max)}
+	case orb.MultiPoint:
+		return orb.MultiPoint(mp(v))
+	case orb.LineString:
+		return orb.LineString(mp(v))
+	case orb.Ring:
+		return orb.Ring(mp(v))
+	case orb.MultiLineString:
+		if v == nil {
+			return v
+		}
+		o := make(orb.MultiLineString, len(v))
+		for i := range v {
+			o[i] = orb.LineString(mp(v[i]))
+		}
+		return o
+	case orb.Polygon:
+		if v == nil {
+			return v
+		}
+		o := make(orb.Polygon, len(v))
+		for i := range v {
+			o[i] = orb.Ring(mp(v[i]))
+		}
+		return o
+	case orb.MultiPolygon:
+		if v == nil {
+			return v
+		}
+		o := make(orb.MultiPolygon, len(v))
+		for i := range v {
+			o[i], _ = Map(v[i], f).(orb.Polygon)
+		}
+		return o
+	case orb.Collection:
+		if v == nil {
+			return v
+		}
+		o := make(orb.Collection, len(v))
+		for i := range v {
+			o[i] = Map(v[i], f)
+		}
+		return o
+	}
+	return g
+}
